@@ -992,6 +992,26 @@ async def misuse_cases(ctx) -> None:
                                                                      f"{exc!s:.80}", {"misuse": name})
         else:
             ctx.violation("connect-failure-succeeded", f"{name} connect to nothing succeeded", {"misuse": name})
+    # every way a connection attempt fails is an OSError of some kind (resolver errors carry NEGATIVE codes, some carry none)
+    targets = [("no-such-host.invalid", 5003), ("", 5003), ("256.256.256.256", 5003), ("host name with blanks", 5003),
+               ("127.0.0.1", 1), ("::1", 1), ("127.0.0.1", 0), ("0.0.0.0", 9), ("localhost.", free_port),
+               ("xn--nxasmq6b.invalid", 80), ("a" * 300 + ".invalid", 80), ("127.0.0.1", 65535), ("gateway..lan", 5003),
+               (".leading-dot.invalid", 5003), ("b" * 64 + ".invalid", 5003)]
+    for host, port in targets:
+        transport = TCPTransport(host, port)
+        ctx.clause("connect-failure-is-transport-error")
+        try:
+            await asyncio.wait_for(transport.connect(), 20)
+        except asyncio.TimeoutError:
+            ctx.obs("connect-failure-target-timeout")
+        except Exception as exc:  # noqa: BLE001
+            ctx.obs("connect-failure:" + type(exc.__cause__).__name__ if exc.__cause__ is not None else "connect-failure:no-cause")
+            if not is_transport_error(exc):
+                ctx.violation("connect-failure-not-transport-error", f"connect to {host!r:.40}:{port} raised "
+                                                                     f"{type(exc).__name__}: {exc!s:.80}", {"misuse": f"connect {host!r:.40}:{port}"})
+        else:
+            ctx.obs("connect-failure-target-connected")
+            await transport.disconnect()
     ctx.case(("misuse",), nontrivial=True)
 
 
